@@ -37,7 +37,6 @@ Definition heads (qs : list (list val)) : list val := flat_map (fun q => match q
 Definition tails (qs : list (list val)) : list (list val) := map (@tl val) qs.
 Definition all_eq_head (l : list val) : bool :=
   match l with [] => true | x :: r => forallb (val_eqb x) r end.
-Fixpoint seqZ (a : Z) (n : nat) : list Z := match n with 0 => [] | S k => a :: seqZ (a + 1)%Z k end.
 
 (* ------------------------------------------------------------------ the handler table
    handler op others st port ser fresh ev = (st', actions): the body of the next / error / complete
